@@ -202,6 +202,8 @@ def check_in(prop, tier, spec, seed, workdir, t0):
     witness = {os.path.normpath(os.path.join(ROOT, f["witness"])): f for f in findings if f["kind"] == "finding" and "witness" in f}
     rdir = os.path.join(ROOT, "replays", prop)
     replays = sorted(os.path.join(rdir, f) for f in os.listdir(rdir)) if os.path.isdir(rdir) else []
+    if os.environ.get("VERIF_NO_REPLAY"):
+        replays = []  # sensitivity experiments: judge the generated search alone
     nreplay = 0
     for i, rp in enumerate(replays):
         if not rp.endswith(".json"):
